@@ -1,7 +1,77 @@
+import MythVerif.Model.Mutex
 import Driver.Util
-/-! `drv_mutex`: stub, to be filled in -/
+/-! `drv_mutex`: trace acceptor.  Replays a controller trace of a whole-library run on the mutex
+model: every mutex event must be an enabled model step of that thread with the same observed
+value.  Objects are declared by `obj <name> mutex` lines; events on other objects are skipped. -/
 namespace Driver.Mutex
+open MythVerif MythVerif.Mutex
+
+def toLbl (e : Driver.Ev) : Option Lbl :=
+  let tb := Driver.parseTag e.b
+  match e.pt with
+  | "MX_LOCK_READ" => e.cur.map (fun t => .lockRead t e.v.toNat)
+  | "MX_LOCK_CAS1" => e.cur.map (fun t => .lockCas1 t (e.v == 1))
+  | "MX_LOCK_CAS2" => e.cur.map (fun t => .lockCas2 t (e.v == 1))
+  | "BLOCK_BEGIN" => tb.map (fun t => .blockBegin t)
+  | "BLOCK_CB_ENQ" => tb.map (fun t => .cbEnq t)
+  | "MX_TRY_READ" => e.cur.map (fun t => .tryRead t e.v.toNat)
+  | "MX_TRY_CAS" => e.cur.map (fun t => .tryCas t (e.v == 1))
+  | "MX_UNLOCK_READ" => e.cur.map (fun t => .unlockRead t e.v.toNat)
+  | "MX_UNLOCK_CAS2" => e.cur.map (fun t => .unlockCas2 t (e.v == 1))
+  | "MX_UNLOCK_CAS0" => e.cur.map (fun t => .unlockCas0 t (e.v == 1))
+  | "SPIN_WAKE_DEQ" => e.cur.map (fun t => .wakeSpin t)
+  | "WAKE_DEQ" => match e.cur, tb with
+      | some t, some x => some (.wakeDeq t x)
+      | _, _ => none
+  | "MX_CLEAR_BIT" => e.cur.map (fun t => .clearBit t)
+  | "WAKE_PUSH" => match e.cur, tb with
+      | some t, some x => some (.wakePush t x)
+      | _, _ => none
+  | _ => none
+
+def relevant (pt : String) : Bool :=
+  pt.startsWith "MX_" || pt == "BLOCK_BEGIN" || pt == "BLOCK_CB_ENQ" || pt == "SPIN_WAKE_DEQ" ||
+  pt == "WAKE_DEQ" || pt == "WAKE_PUSH"
+
+structure Acc where
+  objs : List (String × St) := []
+  line : Nat := 0
+  accepted : Nat := 0
+  err : Option String := none
+
+def showPc : PC → String
+  | .idle => "idle" | .lretry => "lretry" | .lr s => s!"lr{s}" | .ann => "ann" | .annSw => "annSw"
+  | .asleep => "asleep" | .hold => "hold" | .tretry => "tretry" | .tr s => s!"tr{s}"
+  | .uretry => "uretry" | .ur s => s!"ur{s}" | .uw => "uw" | .uc x => s!"uc{x}" | .up x => s!"up{x}"
+
+def feed (acc : Acc) (line : String) : Acc :=
+  if acc.err.isSome then acc else
+  let acc := { acc with line := acc.line + 1 }
+  match Driver.words line with
+  | ["obj", name, "mutex"] => { acc with objs := (name, init) :: acc.objs }
+  | _ =>
+  match Driver.parseEv line with
+  | none => acc
+  | some e =>
+    if !relevant e.pt then acc else
+    match acc.objs.find? (·.1 == e.a) with
+    | none => acc      -- an object this acceptor does not own
+    | some (name, st) =>
+      match toLbl e with
+      | none => { acc with err := some s!"MISMATCH line {acc.line}: cannot attribute `{line.trimAscii.toString}` to a thread" }
+      | some l =>
+        match step st l with
+        | some st' =>
+          { acc with objs := acc.objs.map (fun p => if p.1 == name then (name, st') else p),
+                     accepted := acc.accepted + 1 }
+        | none =>
+          { acc with err := some s!"MISMATCH line {acc.line}: model cannot do `{line.trimAscii.toString}`: word={st.word} q={st.q} pc[actor]={showPc (st.pc l.actor)}" }
+
 def run (_args : List String) : IO UInt32 := do
-  IO.eprintln "drv_mutex: not implemented"
-  return 2
+  let stdin ← IO.getStdin
+  let acc ← Driver.forLines stdin ({} : Acc) fun a line => pure (feed a line)
+  match acc.err with
+  | some e => IO.println e; return 0
+  | none => IO.println s!"accepted {acc.accepted}"; return 0
+
 end Driver.Mutex
